@@ -375,7 +375,7 @@ PLANS["C09"] = {
 }
 
 PLANS["C13"] = {
-    "jobs": simple_jobs("c13", 1600, 60000, par_n=(150, 6000)),
+    "jobs": simple_jobs("c13", 1600, 60000, par_n=(40, 4000)),
     "level": "exploration",
     "technique": "history monitor with row identities: sticky-flag invariant after every command, probe rules / check / extraction walked on clones, event-locality diff of raw dumps",
     "level_text": "Every row ever observed with the subsumed flag is remembered as a ground term that evaluates to it; after every later command (rebuilds, congruent merges in both orders, re-insertions, push/pop, rule-head subsumes, :subsume rewrites; serial and 4-thread/cut-off-0) the term must still evaluate to a flagged row. On clones, probe rules must match every unflagged row and no flagged row, check must succeed on flagged rows, and every node of an extracted term must rest on an unflagged row. Subsume and delete events may remove or re-flag nothing but their target row; a deleted row must be gone.",
@@ -383,6 +383,16 @@ PLANS["C13"] = {
     "floors": {"quick": {"sticky_checks": 10000, "probe_row_checks": 20000, "delete_events": 200, "histories_flag_survived_rebuild": 400},
                "thorough": {"sticky_checks": 500000, "probe_row_checks": 1000000, "delete_events": 10000, "histories_flag_survived_rebuild": 20000}},
     "assumptions": ["dump via public read API"],
+}
+
+PLANS["C07"] = {
+    "jobs": simple_jobs("c07", 2000, 80000, witness_dir="witnesses/C07"),
+    "level": "exploration",
+    "technique": "reference-oracle runtime monitor: independent least-fixpoint minimum cost over the dump + re-evaluation of the extracted term on the engine",
+    "level_text": "For generated e-graphs (random declaration/insertion order, costs 0..i64::MAX with saturating sums, :unextractable, subsumed rows, cycles, ties, containers) and every nameable class as root: extract must succeed exactly when the oracle finds a term; the result must check equal to the root, use only unsubsumed rows of extractable constructors, and have tree cost = reported cost = oracle minimum; each variant must be a member with a distinct root e-node.",
+    "level_note": "Minimum cost is the least fixpoint of saturating addition; base values cost 1 and containers the sum of their elements (the default cost model). The known saturating-cost panic is recognised by its call site (src/extract.rs unwrap on None) together with a saturated class cost.",
+    "floors": {"quick": {"extractions": 10000, "egraphs_with_saturated_cost": 50, "variant_extractions": 1000}, "thorough": {"extractions": 400000, "egraphs_with_saturated_cost": 2000, "variant_extractions": 40000}},
+    "assumptions": ["dump via public read API", "default TreeAdditiveCostModel"],
 }
 
 NOT_APPLICABLE = {}
